@@ -116,6 +116,10 @@ def ops_for(rng, p, st, tier):
                 ops.append(dict(op="iter", d=d, tg=tg, max=600, resolve=(d >= maxd and tg["t"] != "unit")))
         ops.append(dict(op="iter", d=maxd, tg=dict(t="path", sep=47), exact=True, max=600))
         ops.append(dict(op="iter", d=maxd + 1, tg=dict(t="idxd"), exact=True, max=600))
+        # the exact-size wrapper on a target that runs out of capacity above leaf depth (outside what the
+        # wrapper can count: dedicated stream, matched against the known finding exactsize-capacity)
+        for _ in range(2 if quick else 6):
+            ops.append(dict(op="iter", d=maxd, tg=dict(t="path", sep=47, cap=rng.randint(1, 12)), exact=True, max=600, _known="exactsize-capacity"))
         # rooted iteration, any representation of the root
         internal = [n for n in nodes if not n[1]]
         for steps, leaf in rng.sample(nodes, min(len(nodes), 6 if quick else 20)):
